@@ -704,7 +704,9 @@ def lower_class(block):
 
 
 def gen_files():
-    return {}
+    from translate import scopes as tr_scopes
+
+    return {"Scopes.v": tr_scopes.translate(str(lib.REPO))}
 
 
 def load_corpus():
@@ -788,7 +790,13 @@ def small_exhaustive(limit):
 def run(tier: str, replay: str | None = None):
     rep = lib.Report(PROP, tier, "proof")
     rng = random.Random(lib.seed() * 104729 + 9)
-    proof = lib.prove(PROP, gen_files(), thorough=(tier == "thorough"))
+    broken_translation = None
+    try:
+        gen = gen_files()
+    except Exception as ex:  # TranslateError or a source file that no longer parses
+        broken_translation = f"{type(ex).__name__}: {ex}"
+        gen = None
+    proof = lib.prove(PROP, gen, thorough=(tier == "thorough"))
 
     # ---- cases
     blocks = []
@@ -953,6 +961,8 @@ def run(tier: str, replay: str | None = None):
         i, u, got, mset = corr_mismatch[0]
         rep.violation({"kind": "broken-correspondence", "correspondence": "Scopes.Analysis.analyse vs NameCheckVisitor (reveal_type, undefined_name, possibly_undefined_name)",
                        "input": payload(i, u, {}), "observed": got, "model": mset}, no_failing_input=True)
+    if broken_translation and not found_input:
+        rep.violation({"kind": "broken-obligation", "theorem": "Gen/Scopes.v (translator harness/translate/scopes.py)", "detail": broken_translation}, no_failing_input=True)
     if proof is not None and not proof.ok and not found_input:
         rep.violation({"kind": "broken-obligation", "theorem": "; ".join(proof.broken), "log": proof.log[-1500:]}, no_failing_input=True)
     for m in spec_errors[:5]:
